@@ -35,6 +35,23 @@ def check(ctx: Ctx) -> None:
     c18_r1(ctx, "C10.R3")
     r4(ctx, "C10.R4")
     r5(ctx)
+    from .c04 import r1 as c04_r1
+    n0 = len(ctx.obs)
+    c04_r1(ctx)
+    for o in ctx.obs[n0:]:
+        o.rule = "C10.R6"
+    ctx.rule_text["C10.R6"] = ctx.rule_text.pop("C04.R1")
+    ctx.floors["C10.R6"] = ctx.floors.pop("C04.R1")
+    r7(ctx)
+    from .c20 import r5 as c20_r5
+    c20_r5(ctx, "C10.R9")
+    from .c08 import r1 as c08_r1
+    n0 = len(ctx.obs)
+    c08_r1(ctx)
+    for o in ctx.obs[n0:]:
+        o.rule = "C10.R8"
+    ctx.rule_text["C10.R8"] = ctx.rule_text.pop("C08.R1")
+    ctx.floors["C10.R8"] = ctx.floors.pop("C08.R1")
 
 
 def int_is_guarded(ctx: Ctx, f: FunctionInfo, n: Node) -> Tuple[bool, str]:
@@ -266,3 +283,32 @@ def r5(ctx: Ctx) -> None:
                f"{n_exits} exceptional exit class(es) examined after `{m0.text[:50]}`: a leftover v<N+1> file is what hint-less "
                "recovery picks (highest version), surfacing a version whose data files were rolled back",
                witness=bad[:8] or None)
+
+
+def r7(ctx: Ctx) -> None:
+    ctx.rule("C10.R7", "version resolution is stateless: refresh / _current_version_info / _read_version_hint / "
+             "_recover_version_from_files neither store to the manager nor answer from a remembered result", 1)
+    mm = ctx.prog.cls(MM)
+    names = ("refresh", "_current_version_info", "_read_version_hint", "_recover_version_from_files", "_parse_hint_content",
+             "_read_metadata_file")
+    bad = []
+    init_attrs = set()
+    init = mm.methods.get("__init__")
+    if init is not None:
+        for n in ast.walk(init.node):
+            if isinstance(n, ast.Attribute) and isinstance(n.ctx, ast.Store) and isinstance(n.value, ast.Name) and n.value.id == "self":
+                init_attrs.add(n.attr)
+    for nm in names:
+        m = mm.methods.get(nm)
+        if m is None:
+            continue
+        for n in ast.walk(m.node):
+            if isinstance(n, ast.Attribute) and isinstance(n.ctx, ast.Store) and isinstance(n.value, ast.Name) and n.value.id == "self":
+                bad.append(f"{m.file}:{n.lineno} {nm} stores self.{n.attr}")
+            if isinstance(n, ast.Attribute) and isinstance(n.ctx, ast.Load) and isinstance(n.value, ast.Name) and n.value.id == "self" \
+                    and n.attr not in ("storage", "metadata_path", "table_path", "HINT_PATH", "_lock", "lock_provider") \
+                    and n.attr not in mm.methods and n.attr not in mm.consts:
+                bad.append(f"{m.file}:{n.lineno} {nm} answers from self.{n.attr}")
+    ctx.ob("C10.R7", mm.methods["refresh"], "resolution reads the store every time", None, not bad,
+           "a remembered recovery result ('the file still exists') is not the LATEST version once another handle commits: the stale "
+           "handle resolves to a superseded version and its next commit overwrites committed data", witness=bad[:6] or None)
